@@ -46,7 +46,9 @@ var wordPool = []string{"", "a", "b", "c", "ab", "bc", "abc", "A", "Ab", "aa", "
 
 // extremeInts: integers whose differences and sums leave the int64 range
 var extremeInts = []string{"9000000000000000000", "-9000000000000000000", "9223372036854775807", "-9223372036854775808",
-	"4611686018427387904", "-4611686018427387905", "1099511627776", "-2147483649"}
+	"4611686018427387904", "-4611686018427387905", "1099511627776", "-2147483649",
+	// neighbours that a float64 cannot tell apart (integers are compared exactly)
+	"9223372036854775806", "9007199254740993", "9007199254740992"}
 
 func genValue(t *rapid.T, kind StoreKind, extreme, inexactFloats bool) string {
 	switch kind {
@@ -600,7 +602,14 @@ func (c *GenCtx) GenBool(t *rapid.T, depth int) *Node {
 		}
 		return Between(c.GenText(t, depth-1), Str(a), Str(b))
 	default: // function predicate / constant comparison
-		switch rapid.IntRange(0, 3).Draw(t, "fnPred") {
+		switch rapid.IntRange(0, 4).Draw(t, "fnPred") {
+		case 4:
+			// over a number (statically a number, an integer or a float when
+			// it is evaluated): whatever the answer, both iteration modes give it
+			if c.Exotic {
+				return Call(rapid.SampledFrom([]string{"is_int", "is_float"}).Draw(t, "isFnNum"), c.GenNum(t, depth-1))
+			}
+			fallthrough
 		case 0, 1:
 			if !c.NoValue {
 				return Call(rapid.SampledFrom([]string{"is_int", "is_float"}).Draw(t, "isFn"), Value())
